@@ -79,6 +79,27 @@ def stmts_local(body: List[ast.stmt]) -> Iterator[ast.stmt]:
                 yield from stmts_local(c.body)
 
 
+def is_inert(s: ast.stmt) -> bool:
+    """docstrings, `pass`, and logging / print calls: statements that cannot
+    change what a rule reasons about"""
+    if isinstance(s, ast.Pass):
+        return True
+    if isinstance(s, ast.Expr):
+        v = s.value
+        if isinstance(v, ast.Constant):
+            return True
+        if isinstance(v, ast.Call):
+            d = ast.unparse(v.func)
+            if d.split(".")[0] in ("logging", "logger", "log", "warnings", "print") or d.startswith(("logging.", "logger.")) \
+                    or re.search(r"getLogger\([^)]*\)\.(debug|info|warning|error|exception|critical)$", d):
+                return True
+    return False
+
+
+def effective_body(fn: ast.AST) -> List[ast.stmt]:
+    return [s for s in fn.body if not is_inert(s)]
+
+
 def names_in(node: ast.AST) -> set:
     return {n.id for n in ast.walk(node) if isinstance(n, ast.Name)}
 
